@@ -157,7 +157,7 @@ def line_number_of(model, w):
         return None
 
 
-def explore_reader(model, cls, nlines=3, max_paths=4000, prev_marker=False, active=None):
+def explore_reader(model, cls, nlines=3, max_paths=4000, prev_marker=False, active=None, skip=0):
     """All paths of cls.read(FileWrapper(lines, start_line=S)); yields (nested calls, result, cursor)."""
     fw = model.cls('block_tokenizer.FileWrapper')
     out = []
@@ -186,6 +186,9 @@ def explore_reader(model, cls, nlines=3, max_paths=4000, prev_marker=False, acti
                 if ln is not None and (w.peak_line is None or (ln.add(w.peak_line, -1).is_const() and ln.add(w.peak_line, -1).const > 0)):
                     w.peak_line = ln
             return v
+        # the reader may be entered anywhere in its enclosing buffer: `skip` lines were consumed before it
+        for _ in range(skip):
+            it.call(it.getattr(w, '__next__'), [], {})
         if nx is not None:
             it.func_hooks[nx.qualname] = next_hook
         try:
@@ -328,7 +331,8 @@ def rule_origin(ctx, rep):
         unit = model.unit_of(rd)
         rep.instance('R-ORIGIN')
         seen_bad = set()
-        for trace, (kind, r, nested, w) in explore_reader(model, cls):
+        runs = [x for skip in (0, 1) for x in explore_reader(model, cls, nlines=3 + skip, skip=skip)]
+        for trace, (kind, r, nested, w) in runs:
             for caller, args, kwargs in nested:
                 n_calls += 1
                 buf = args[0] if args else None
@@ -388,16 +392,21 @@ def rule_rows(ctx, rep):
     # Table.read: start_line = number of the first line
     rep.instance('R-ROW-OFFSETS')
     n = 0
-    for trace, (kind, r, nested, w) in explore_reader(model, table, nlines=3):
+    # the table may begin on any line of its enclosing buffer: 0, 1 or 2 lines consumed before it
+    for skip in (0, 1, 2):
+      for trace, (kind, r, nested, w) in explore_reader(model, table, nlines=3 + skip, skip=skip):
         if kind != 'ret' or r is None:
             continue
         n += 1
-        buf, sl = r
-        ok = isinstance(buf, list) and origin_of(buf[0]) == 0 and Aff.lift(sl) == S
-        rep.obligation('R-ROW-OFFSETS', ok, {'Table.read': 'start_line', 'value': repr(sl), 'first_line': origin_of(buf[0]) if isinstance(buf, list) else None})
+        buf, sl = r if isinstance(r, tuple) and len(r) == 2 else (None, None)
+        want = S.add(Aff({}, skip))
+        ok = isinstance(buf, list) and bool(buf) and origin_of(buf[0]) == skip and Aff.lift(sl) is not None and Aff.lift(sl) == want
+        rep.obligation('R-ROW-OFFSETS', ok, {'Table.read': 'start_line', 'lines before the table': skip, 'value': repr(sl),
+                                            'first_line': origin_of(buf[0]) if isinstance(buf, list) and buf else None})
         if not ok:
-            rep.find('R-ROW-OFFSETS', 'block_token.Table.read', 'start_line', 'Table.read reports start_line %r for a table whose '
-                     'first line is the line at the cursor (S)' % (sl,), loc(unit, table.node))
+            rep.find('R-ROW-OFFSETS', 'block_token.Table.read', 'start_line(after %d line%s)' % (skip, '' if skip == 1 else 's'),
+                     'Table.read reports start_line %r for a table whose first line is line %d of the buffer (expected %r)'
+                     % (sl, skip, want), loc(unit, table.node), witness='# title\n| a | b |\n| - | - |' if skip else None)
     rep.floor('R-ROW-OFFSETS/read', n, 1)
     # Table.__init__: row i gets start_line + i
     rows = []
@@ -494,4 +503,8 @@ def run(ctx):
     rule_capture(ctx, rep)
     rule_origin(ctx, rep)
     rule_rows(ctx, rep)
+    # "documents beginning with blank lines": Document hands the tokenizer its input lines one for one, leading
+    # blank lines included, so that line k of the input is line k of the buffer (shared with C15)
+    from . import c15
+    c15.rule_normal_form(ctx, rep)
     rep.assume('abstract line i of a FileWrapper with start_line S has number S + i (R-FILEWRAPPER)')
